@@ -1,4 +1,6 @@
 """R-DEL delete-vs-unlink (C04)."""
+import re
+
 from ..extract import AnalysisBroken
 from ..sem import Sem, Flow, term, unwrap, real_args
 
@@ -196,3 +198,51 @@ def f_order(fn, a, b):
     if ia is None or ib is None:
         return False
     return cfg.dominates(ia, ib)
+
+
+def run_by_handle(prog, rep):
+    """a front-end delete/remove that is given an entity HANDLE identifies the entity by its id (or hands the entity on), never by its
+    name: names are only unique below one parent, a handle may come from anywhere"""
+    from ..sem import Sem, Flow, term, unwrap, real_args
+    sem = Sem(prog)
+    rule = rep.rule('R-BYHANDLE', 'front-end delete/remove overloads that take an entity handle resolve it by id (or pass the entity), not by name', floor=10)
+    ENT = ('DataArray', 'DataFrame', 'Tag', 'MultiTag', 'Source', 'Section', 'Block', 'Feature', 'Property', 'Group')
+    n = 0
+    for f in sorted(prog.funcs.values(), key=lambda f: (f.file, f.line)):
+        if f.body is None or not f.q.startswith('nix::') or f.q.startswith('nix::hdf5::') or f.q.startswith('nix::base::') or f.q.startswith('nix::util::'):
+            continue
+        if not re.match(r'^(delete|remove)', f.name or ''):
+            continue
+        if len(f.params) != 1:
+            continue
+        pt = f.params[0]['type'].replace('const ', '').replace(' &', '').replace('nix::', '').strip()
+        if pt not in ENT:
+            continue
+        pname = f.params[0]['name']
+        fl = Flow(sem, f)
+        bcalls = [c for c in f.calls() if c.get('member') and (c.callee.get('cls') or '').startswith('nix::base::I') and re.match(r'^(delete|remove)', c.callee.get('name') or '')]
+        if not bcalls:
+            continue
+        n += 1
+        c = bcalls[0]
+        a = real_args(c)[0] if real_args(c) else None
+        key = '%s::%s(%s)' % (f.cls, f.name, pt)
+        if a is None:
+            rule.bad(key, rep.where(c), f.label(), 'the backend call gets no argument')
+            continue
+        acc = set()
+        whole = False
+        for x in a.walk():
+            if x.k == 'call' and x.get('member') and x.c and not real_args(x):
+                o = unwrap(x.c[0])
+                if o.k == 'ref' and o.decl.get('name') == pname:
+                    acc.add(x.callee.get('name'))
+        t = term(unwrap(a))
+        if t == ('v', f.params[0]['lid'], pname) or (isinstance(t, tuple) and t[0] in ('new', 'cast') and ('v', f.params[0]['lid'], pname) in t):
+            whole = True
+        ok = whole or acc == {'id'} or ('id' in acc and 'name' not in acc)
+        rule.check(ok, key, rep.where(c), f.label(), 'backend %s receives %s' % (c.callee.get('name'), 'the entity' if whole else pname + '.id()'),
+                   'the handle is resolved by %s(): a handle of a same-named entity below ANOTHER parent makes this call delete/unlink the entity of that name below this parent (and report success), while the entity the caller chose stays' % ('/'.join(sorted(acc)) or a.src(30)))
+    if n < 10:
+        raise AnalysisBroken('R-BYHANDLE: only %d by-handle delete/remove overloads found' % n)
+    return rule
